@@ -108,6 +108,16 @@ CHECKS = {
         "note": NOTE + " Assumes node count >= 1 and bucket count >= 1 (configuration validation).",
         "technique": "static analysis: cast audit with intervals, kernel shape comparison, comparator totality check on the sort closure",
     },
+    "C23": {
+        "category": "proof",
+        "text": "Bit-provenance proof over the actual MIR of id.rs: the generated id carries the partition hash exactly at bits 46..61 with no overlapping field, "
+                "uuid_to_partition_hash returns exactly those bits, set_uuid_flag changes bit 63 only (both flag values), get_uuid_flag reads bit 63, validate_event_id compares the "
+                "extracted hash with its argument; hence hash(generate(h)) = h and the flag never disturbs the hash, for all 2^16 hashes and all 2^128 ids. Plus: every key->partition "
+                "site is hash %% count, and Transaction::new requires every event id to validate.",
+        "note": "Trusted base: rustc front end, driver/, the transfer functions of rules/bitprov.py (and/or/shift-by-constant, zero extension, constant folding) and the modelling of "
+                "Uuid/[u8;16]/u128 conversions as big-endian identities. Random and time bits are opaque inputs.",
+        "technique": "static analysis: abstract interpretation with per-bit provenance over MIR (all paths), sibling routing-kernel rule, quantifier-shape rule",
+    },
     "C04": {
         "text": "For all paths of both commit-matching readers: a Transaction is returned only under commit id == pending id and a non-empty list, a Single only "
                 "under a set flag and an empty list, a change of the pending id resets the list, and the two sibling implementations have the same "
